@@ -779,11 +779,12 @@ def run(ck: Check):
     ck.partial.append("PARTIAL: only the per-instruction translation (INSTRUCTION_SET/Op), CONDS and the Writer's expression and "
                       "in-place assignment forms are proved; register propagation is modelled for one basic block only (constants, unary/cast, "
                       "binary and one-argument static invoke assignments, a final return; tied to the real pass by correspondence), proved "
-                      "to preserve the outcome of the blocks on which every change it makes passes a decidable check (SafeBlock: pure "
-                      "definition without / and %, nothing it reads assigned before the use, deleted definitions dead) and refuted on the "
+                      "to preserve the outcome of the blocks on which every change it makes passes a decidable check (SafeBlock: "
+                      "definition without invoke, nothing it reads assigned before the use, deleted definitions dead and, when they can "
+                      "throw, evaluated again before anything is observable) and refuted on the "
                       "witness of propagation-past-redefinition; SafeBlock is checked by running the model on the block, not derived from "
                       "a condition on the input; dead-code elimination likewise (one block, model tied by correspondence, sound when every "
-                      "deletion passes a decidable check, refuted on a dead division); propagation and deletion of divisions and invokes, "
+                      "deletion passes a decidable check, refuted on a dead division); deletion of dead divisions, propagation and deletion of invokes, "
                       "both passes across branches and loops, variable splitting and typing, "
                       "loop/if/switch structuring and the statement writer are covered by differential execution only")
     ck.rule = ("instruction samples: every opcode of the subset x literals (boundaries + random) x register contents (boundaries + "
